@@ -393,3 +393,35 @@ def numerics_positive_examples():
             raise AnalysisError(f"positive example: the narrowing rule flagged {len(h2)} cast(s) in {entry}, expected {want}")
         out[entry] = len(h2)
     return out
+
+
+def decorator_wrappers(project, fi):
+    """[(decorator FunctionInfo, wrapper FunctionDef, name the wrapped function has inside the wrapper)] for the decorators of
+    `fi` that are functions of the package of the usual shape — `def deco(func): def wrapper(*a, **k): ...; return wrapper`,
+    possibly inside a factory `def factory(...): def deco(func): ...` — outermost first"""
+    import ast as _ast
+    out = []
+    node = getattr(fi, "node", None)
+    for d in getattr(node, "decorator_list", []) or []:
+        head = d.func if isinstance(d, _ast.Call) else d
+        tgt = project.resolve(fi.module, head, ())
+        g = project.functions.get(project.canonical(tgt)) if tgt else None
+        if g is None or not isinstance(g.node, _ast.FunctionDef):
+            continue
+        deco_node = g.node
+        if isinstance(d, _ast.Call):
+            inner = [x for x in deco_node.body if isinstance(x, _ast.FunctionDef)]
+            rets = [x for x in deco_node.body if isinstance(x, _ast.Return) and isinstance(x.value, _ast.Name)]
+            cand = [x for x in inner if rets and x.name == rets[-1].value.id]
+            if not cand:
+                continue
+            deco_node = cand[0]
+        if not deco_node.args.args:
+            continue
+        fname = deco_node.args.args[0].arg
+        inner = [x for x in deco_node.body if isinstance(x, _ast.FunctionDef)]
+        rets = [x for x in deco_node.body if isinstance(x, _ast.Return) and isinstance(x.value, _ast.Name)]
+        cand = [x for x in inner if rets and x.name == rets[-1].value.id]
+        if cand:
+            out.append((g, cand[0], fname))
+    return out
